@@ -27,7 +27,9 @@ import (
 //
 //   ext cfg=<0|1> storage=<0|1> thr=<abs:N|rel:K> alg=<name|-> level=<n> upfail=<0|1> b=<batch>
 //       externalizeBatchCtx on the batch; thr=rel:K means threshold = batchBufferSize+K.
-//   rt  (same keys as ext) val=<nil|ok|rej|https> tamper=<mode> sha=<mode>
+//   rt  (same keys as ext) val=<nil|ok|rej|https> tamper=<mode> sha=<mode> [mf=<cap> md=<cap>]
+//       mf / md: MaxFetchBytes / MaxDecompressedBytes of the resolving side, e<K> = stored size + K,
+//       r<K> = raw IPC size + K (K may be negative), absent = default
 //       externalize, serve the uploaded object from a local TLS origin (tampered per <mode>),
 //       then ResolveExternalLocation on the returned pointer. Emits an `ext` and a `res` line.
 //   res cfg=<0|1> val=<nil|ok|rej|https> prows=<n> pmeta=<symbolic meta> sha=<mode> scheme=<https|http>
@@ -450,8 +452,13 @@ func c30ValToken(kind, url string) string {
 	return "rej"
 }
 
+// c30Caps: MaxFetchBytes / MaxDecompressedBytes for the next resolve (0 = default); set by rt lines.
+var c30Caps [2]int64
+
 func c30ResCfg(val string) *vgirpc.ExternalLocationConfig {
 	return &vgirpc.ExternalLocationConfig{
+		MaxFetchBytes:        c30Caps[0],
+		MaxDecompressedBytes: c30Caps[1],
 		URLValidator: c30Validator(val),
 		HTTPClient:   c30Origin().Client(),
 		MaxRetries:   1,
@@ -780,7 +787,40 @@ func c30Exec(c *Case) {
 				keys, vals = c30ShaMode(kv["sha"], c30Sha(raw), keys, vals)
 			}
 			pm2 := arrow.NewMetadata(keys, vals)
-			c30DoRes(c, true, kv["val"], ptr, pm2, st.url, true, tam, orig, !bytes.Equal(tam, raw))
+			// the two caps, independently: e+K = stored (encoded) size + K, r+K = raw IPC size + K
+			capOf := func(tok string) int64 {
+				switch {
+				case strings.HasPrefix(tok, "e"):
+					k, _ := strconv.ParseInt(tok[1:], 10, 64)
+					return int64(len(served)) + k
+				case strings.HasPrefix(tok, "r"):
+					k, _ := strconv.ParseInt(tok[1:], 10, 64)
+					return int64(len(tam)) + k
+				}
+				return 0
+			}
+			c30Caps = [2]int64{capOf(kv["mf"]), capOf(kv["md"])}
+			// would a faithful fetch under these caps hand the body on? (environment, by the documented rule)
+			mfEff, mdEff := c30Caps[0], c30Caps[1]
+			if mfEff <= 0 {
+				mfEff = 256 << 20
+			}
+			if mdEff <= 0 {
+				mdEff = 4 << 30
+			}
+			fetchOK := int64(len(served)) <= mfEff
+			if up.enc == "zstd" {
+				win := int64(len(tam))
+				if win < 1024 {
+					win = 1024
+				}
+				fetchOK = fetchOK && int64(len(tam)) <= mdEff && win <= mdEff
+			}
+			if c30Caps != [2]int64{} {
+				c.Stat(fmt.Sprintf("rt-caps-fetch-%v", fetchOK))
+			}
+			c30DoRes(c, true, kv["val"], ptr, pm2, st.url, fetchOK, tam, orig, !bytes.Equal(tam, raw))
+			c30Caps = [2]int64{}
 			c30Objects.Delete(path)
 			ptr.Release()
 			orig.Release()
@@ -991,6 +1031,21 @@ func c30Gen(g *Gen) {
 		g.Case(fmt.Sprintf("rt cfg=1 storage=1 thr=%s alg=zstd level=%d upfail=0 b=6/%d/%d/%s val=%s tamper=none sha=keep",
 			Pick(r, []string{"rel:0", "rel:-8", "abs:1", "abs:64"}), Pick(r, []int{0, 1, 2, 3, 4}), rows, r.Range(1, 999),
 			c30GenMeta(r, Pick(r, []string{"none", "none", "app"})), Pick(r, []string{"nil", "ok", "https"})))
+	}
+	// (b'') the two size caps of the resolving side varied independently around the stored (encoded)
+	// and the raw size of a compressible batch: the encoded body is checked against MaxFetchBytes,
+	// the decoded payload against MaxDecompressedBytes — in particular  stored <= MaxFetchBytes < raw
+	// <= MaxDecompressedBytes must resolve
+	for i := 0; i < g.N(30, 300); i++ {
+		rows := Pick(r, []int{300, 1000, 2000, 5000})
+		alg := "zstd"
+		if r.Chance(20) {
+			alg = "-"
+		}
+		mf := Pick(r, []string{"e+0", "e+1", "e+100", "e-1", "r-1", "r+0", "r-100", "e+0", "e+10"})
+		md := Pick(r, []string{"r+0", "r+1", "r+1000", "r-1", "r+0", "r+5000", "e+0"})
+		g.Case(fmt.Sprintf("rt cfg=1 storage=1 thr=abs:1 alg=%s level=%d upfail=0 b=%d/%d/%d/- val=%s tamper=none sha=keep mf=%s md=%s",
+			alg, Pick(r, []int{0, 1, 3}), Pick(r, []int{0, 1, 5}), rows, r.Range(1, 999), Pick(r, []string{"nil", "ok"}), mf, md))
 	}
 	// (c) fetched streams: random arrangements
 	for i := 0; i < g.N(300, 4000); i++ {
